@@ -134,8 +134,20 @@ func plan(prop, tier string) []run {
 		}
 		r = append(r, run{cfg: cfg, menu: menu, prims: menus[menu], d: d, budget: budget, maxV: 2})
 	}
-	if prop == "C13" || prop == "C17" {
-		return nil // only the two-height enumeration below serves these two properties in this engine
+	if prop == "C17" {
+		return nil // only the two-height enumeration below serves this property in this engine
+	}
+	if prop == "C13" {
+		// two-height searches: a slow member can hold the complete traffic of height 2 in its future cache when it commits
+		// height 1 (callback order and height monotonicity across the re-entrant drain); plus the enumeration below
+		bud := 20 * time.Second
+		if !q {
+			bud = 90 * time.Second
+		}
+		for _, c := range [][2]string{{"K1^2@v1", "M1"}, {"K2^2@v0e", "M2"}, {"K5^2@v0", "M0"}} {
+			r = append(r, run{cfg: c[0], menu: c[1], prims: menus[c[1]], budget: bud, maxV: 1})
+		}
+		return r
 	}
 	if prop == "C04" {
 		// external validity: block Z is rejected by every correct consumer; Byzantine leaders propose it in
